@@ -5,7 +5,7 @@ from vlib.core import zlist, zlit, sflit, qlit
 
 OBLIGATIONS = dict(
     prop_file='Properties/C04.v',
-    glue=['Glue/CodecGlue.v'] + ['Glue/Pin_fp_C04.v'],
+    glue=['Glue/CodecGlue.v'] + ['Glue/Pin_fp_C04.v', 'Glue/CastBitsGlue.v'],
     extra=['Model/C04Check.vo'],
     gen_items=['k_fsq_half_width', 'k_fsq_scale_and_shift', 'k_fsq_scale_and_shift_inverse', 'k_fsq_level_indices',
                'p_fsq_codec', 'k_lfq_bits_to_codes', 'k_lfq_quantize', 'p_lfq_codec', 'k_lq_scale_and_shift',
